@@ -78,6 +78,14 @@ fn mix(seed: u64, n: u64) -> u64 {
     z ^ (z >> 31)
 }
 
+// Exec.cls_truth: what a comparison of two key CLASSES answers by itself -- equality, except under the fifth
+// adversarial kind (seed mod 5 = 3), where "a == b" iff a <= b: reflexive, transitive, not symmetric, so that the
+// order of the operands in every comparison the crate makes is observable
+fn cls_truth(a: u64, b: u64) -> bool {
+    let asym = with_ctx(|c| c.adv && c.seed % 5 == 3);
+    if asym { a <= b } else { a == b }
+}
+
 // every ==: Key==Key, Cls==Cls, Val==Val
 fn eq_cb(truth: bool) -> bool {
     let r = with_ctx(|c| {
@@ -98,11 +106,12 @@ fn eq_cb(truth: bool) -> bool {
             return Some(truth);
         }
         // a misbehaving ==: the seed selects the kind of misbehaviour (Exec.adv_answer)
-        Some(match c.seed % 4 {
-            0 => if mix(c.seed, n) % 4 == 0 { !truth } else { truth },
-            1 => true,
-            2 => false,
-            _ => if n % 2 == 0 { truth } else { !truth },
+        Some(match c.seed % 5 {
+            4 => if mix(c.seed, n) % 4 == 0 { !truth } else { truth },
+            0 => true,
+            1 => false,
+            2 => if n % 2 == 0 { truth } else { !truth },
+            _ => truth,     // kind 3: the operands decide, asymmetrically (cls_truth below)
         })
     });
     match r {
@@ -204,7 +213,7 @@ fn on_drop(id: u64, magic: u64, want: u64, what: &str) -> bool {
 pub struct Cls(pub u64);
 impl PartialEq for Cls {
     fn eq(&self, o: &Cls) -> bool {
-        eq_cb(self.0 == o.0)
+        eq_cb(cls_truth(self.0, o.0))
     }
 }
 impl Eq for Cls {}
@@ -231,7 +240,7 @@ impl PartialEq for Key {
     fn eq(&self, o: &Key) -> bool {
         observe(self.id, self.magic, MAGIC_K, "eq-lhs");
         observe(o.id, o.magic, MAGIC_K, "eq-rhs");
-        eq_cb(self.cls.0 == o.cls.0)
+        eq_cb(cls_truth(self.cls.0, o.cls.0))
     }
 }
 impl Eq for Key {}
